@@ -248,7 +248,7 @@ fn refine_signature(mut f: Fail, files: &Rendered, response: &Value, ep: &Entryp
         return f;
     }
     let abstract_without_id = ep.operation_text.as_deref().is_some_and(|t| respgen::operation_has_abstract_field_without_id(schema, t));
-    if f.signature.starts_with("missing-data:") && response_repeats_an_entity(response) && (innermost_root_is_path_based(&f.message) || abstract_without_id) {
+    if f.signature.starts_with("missing-data:") && (abstract_without_id || (innermost_root_is_path_based(&f.message) && response_repeats_an_entity(response))) {
         f.signature = SIG_ENTITY_WITHOUT_ID.into();
         return f;
     }
@@ -308,6 +308,10 @@ pub fn run_program(files: &Rendered, declared: &[String], rtape: &[u16], respons
             report.excluded(SIG_POINTER_ARGS);
             continue;
         }
+        if known(SIG_ENTITY_WITHOUT_ID) && respgen::operation_has_abstract_field_without_id(&compiled.schema, &text) {
+            report.excluded(SIG_ENTITY_WITHOUT_ID);
+            continue;
+        }
         if crate::artifacts::has_variable_inside_object(&ep.reader_ast) && known(SIG_OMITTED_IN_OBJECT) {
             report.excluded(SIG_OMITTED_IN_OBJECT);
             continue;
@@ -322,7 +326,7 @@ pub fn run_program(files: &Rendered, declared: &[String], rtape: &[u16], respons
         }
         for k in 0..responses {
             let tape = rotate(rtape, k + res.entrypoints * 31);
-            let (_, response, variables, stats) = match respgen::generate(&compiled.schema, &text, tape, known(SIG_ENTITY_WITHOUT_ID)) {
+            let (_, response, variables, stats) = match respgen::generate(&compiled.schema, &text, tape, false) {
                 Ok(x) => x,
                 Err(e) => {
                     // not valid GraphQL / not matching the schema: C09's property, not this one
@@ -336,9 +340,6 @@ pub fn run_program(files: &Rendered, declared: &[String], rtape: &[u16], respons
                 // recorded finding: excluded so that the search continues behind it
                 report.excluded(SIG_NESTED_LIST);
                 break;
-            }
-            if known(SIG_ENTITY_WITHOUT_ID) {
-                report.excluded(SIG_ENTITY_WITHOUT_ID);
             }
             res.reads += 1;
             let abstract_pos = stats.abstract_positions > 0 || rs.conditions > 0;
